@@ -78,7 +78,10 @@ type ShardSpec struct {
 	FailShape string `json:"failShape,omitempty"`
 	Held      []Held `json:"held"`
 	HeadExtra int64  `json:"headExtra"`
-	Idle      string `json:"idle"` // expired | fresh  (meaningful when Held is empty)
+	// Head2: additional head series in the second runtimeinfo answer of a cycle (the answer after a
+	// configuration push): a restarted shard whose head is refilling reports more the second time
+	Head2 int64  `json:"head2,omitempty"`
+	Idle  string `json:"idle"` // expired | fresh  (meaningful when Held is empty)
 }
 
 // ReplicaSpec is one StatefulSet.
@@ -214,6 +217,9 @@ func (f *fakeShard) getCore(path string) (data interface{}, fail error) {
 			ri.ProcessSeries += h.Total
 		}
 		ri.HeadSeries += f.spec.HeadExtra
+		if f.rtCalls >= 2 {
+			ri.HeadSeries += f.spec.Head2
+		}
 		if len(f.spec.Held) == 0 {
 			t := farFuture
 			if f.spec.Idle == "expired" {
